@@ -47,7 +47,7 @@ class C04(Prop):
     RULE = ("case = load sequence (>= 2 distinct values) with an exact stub notch law; quick: all sequences over 5 load levels up to length 5 and "
             "over 7 levels up to length 4 (thorough 6 / 5) for one assessment point + seeded random sequences (<= 14 samples, integer level sets incl. "
             "near-ties that differ by 1e-6 relative, deeply nested families with 3-5 closures by one sample) incl. refinements by non-reversal "
-            "samples; 'multi' cases: 2-3 proportional points (factor 0 = unloaded point allowed behind the first) x six load_step label layouts "
+            "samples; 'multi' cases: 2-3 proportional points (factor 0 = unloaded point allowed behind the first) x seven load_step label layouts (the exhaustive multi-point scope runs every sequence under every layout) "
             "(oracle and, through C05, correspondence); 'float' cases (oracle only): dyadic non-integer loads whose ranges differ by 2**-7 .. 2**-33; "
             "junction classes are tagged and counted; non-trivial = pass 2 records at least one hysteresis; distinct by (sequence, law) resp. "
             "(sequence, seed) for refinements")
@@ -119,8 +119,11 @@ class C04(Prop):
             for s in itertools.product(LEVELS, repeat=n):
                 if two_distinct(s):
                     h = sum(abs(x) for x in s) // 100 + n
-                    yield {"kind": "multi", "law": "linear", "samples": list(s), "ratios": MULTI_RATIOS[h % len(MULTI_RATIOS)],
-                           "labels": list(hcm.LABELS)[h % len(hcm.LABELS)]}
+                    # every layout of the load_step labels (which hystereses share a label depends on the layout: seeded
+                    # change C04-m5 shows only where the first two recorded hystereses carry the same label)
+                    for li, lab in enumerate(hcm.LABELS):
+                        yield {"kind": "multi", "law": "linear", "samples": list(s), "ratios": MULTI_RATIOS[(h + li) % len(MULTI_RATIOS)],
+                               "labels": lab}
 
     def _impl_selected(self, case):
         return True
